@@ -52,7 +52,7 @@ type Engine struct {
 }
 
 var opaquePkgs = map[string]bool{"compress/flate": true, "crypto/tls": true, "net/http": true}
-var opaqueTypes = map[string]bool{"compress/flate.Writer": true, "crypto/tls.Conn": true, "crypto/tls.Config": true}
+var opaqueTypes = map[string]bool{"compress/flate.Writer": true, "crypto/tls.Conn": true}
 
 var defaultAllowedPkgs = []string{
 	"bufio", "io", "bytes", "strings", "strconv", "errors", "unicode/utf8",
@@ -99,6 +99,11 @@ var defaultRedirects = map[string]string{
 	"(*crypto/tls.Conn).VerifyHostname":       "vfTLSVerifyHostname",
 	"(*crypto/tls.Conn).ConnectionState":      "vfTLSConnectionState",
 	"(*crypto/tls.Conn).Close":                "vfTLSClose",
+	"(*crypto/tls.Conn).Read":                 "vfTLSRead",
+	"(*crypto/tls.Conn).Write":                "vfTLSWrite",
+	"(*crypto/tls.Conn).SetDeadline":          "vfTLSSetDeadline",
+	"(*crypto/tls.Conn).SetReadDeadline":      "vfTLSSetReadDeadline",
+	"(*crypto/tls.Conn).SetWriteDeadline":     "vfTLSSetWriteDeadline",
 	"(*crypto/tls.Config).Clone":              "vfTLSConfigClone",
 	"golang.org/x/net/proxy.FromURL":          "vfProxyFromURL",
 	"io.NopCloser":                            "vfNopCloser",
